@@ -15,6 +15,14 @@ RULE = ("a case is one schedule: (exc) a sequence of client inputs - sends, time
 
 WRAPS = ["coap_ticks", "coap_socket_send", "coap_socket_recv"]
 
+
+def run_both(model, drv, lines):
+    """model and C driver on the same lines; a driver that keeps dying (runaway library: the harness
+    ends a case after 40 s or 200000 datagrams) is given up after a few restarts"""
+    om, _ = vlib.run_lines_robust(model, lines)
+    oc, cr = vlib.run_lines_robust(drv, lines, max_restarts=6)
+    return om, oc, cr
+
 JUDGE_TEXT = {
     1: "a step has none of the shapes the protocol allows for its input",
     2: "a request token concluded twice",
@@ -168,7 +176,9 @@ def liveness(V, it):
         resp_delivered = [e for e in p["log"] if e["side"] == "s" and e["deliv"] and
                           e["d"].split(":")[0] in ("ackr", "conr", "nonr") and int(e["d"].split(":")[2]) == tok]
         ack_delivered = [e for e in p["log"] if e["side"] == "s" and e["deliv"] and e["d"] == "ack:%d" % mid]
-        if not resp_delivered and ack_delivered:
+        resp_sent = [e for e in p["log"] if e["side"] == "s" and
+                     e["d"].split(":")[0] in ("ackr", "conr", "nonr") and int(e["d"].split(":")[2]) == tok]
+        if not resp_delivered and ack_delivered and resp_sent:
             it.setdefault("excused", []).append(tok)
             V.run.hist("liveness", "excused: empty ACK delivered, every response transmission lost")
             continue
@@ -275,7 +285,7 @@ def main(run):
     if not replay_only:
         wl = ["exw 65535 100 0", "exw 65534 100 0", "exw 65535 40000 0", "exw 300 65400 0",
               "exw 65535 100 1", "exw 65534 100 1", "exw 300 65400 1"]
-        wm, wc, _ = tie.run_both(model, drv, wl)
+        wm, wc, _ = run_both(model, drv, wl)
         for ln, a, b in zip(wl, wm, wc):
             run.count(ln, True)
             run.hist("case_kind", "exw")
@@ -292,7 +302,7 @@ def main(run):
 
     # ------------------------------------------------------------ exc: model and library on the same line
     lines = [c[0] for c in exc]
-    om, oc, crashes = tie.run_both(model, drv, lines)
+    om, oc, crashes = run_both(model, drv, lines)
     ocx = oc
     run.cov["driver_crashes"] = len(crashes)
     items = []
@@ -316,8 +326,11 @@ def main(run):
 
     # ------------------------------------------------------------ exe: whole exchanges
     lines = [c[0] for c in exe]
-    oc, crashes = vlib.run_lines_robust(drv, lines)
+    oc, crashes = vlib.run_lines_robust(drv, lines, max_restarts=6)
     run.cov["driver_crashes"] += len(crashes)
+    for idx, rc, err in crashes[:2]:
+        V.violation("the driver died on a case (rc=%d): %s" % (rc, err[-200:].replace("\n", " ")),
+                    "case: %s\nrc: %d\nstderr: %s\n" % (lines[idx], rc, err), "crash")
     items = []
     replay = []
     for i, (ln, kind, honest) in enumerate(exe):
